@@ -51,6 +51,14 @@ def u_purity(ctx):
                                f"{len(rep.writes)} heap-write site(s), all with owned receivers / object under construction")[:1500],
                        kind="frame")
     ctx.extra["functions_analysed"] = nfun
+    import hashlib
+    dyn = {}
+    for path, modname in files:
+        h = hashlib.sha1(open(path, "rb").read()).hexdigest()[:12]
+        funcs, _, _ = purity.analyse_module(path, modname, ALLOWED)
+        for rep in funcs:
+            dyn[rep.qualname] = "file:" + h
+    ctx.extra["functions_dynamic"] = dyn
     ctx.note(f"{nfun} functions/methods in {len(files)} modules analysed")
     ctx.note("allowed exceptions: cached_property sgn0 memo on the receiver (value depends only on n/coeffs, never written "
              "after __init__); py_ecc._import_module memoises importlib.import_module in the package namespace")
